@@ -329,6 +329,18 @@ Proof.
   - unfold other. rewrite Hm. destruct (lock s); reflexivity.
 Qed.
 
+(* Database.disconnect() between sessions *)
+Lemma disconnect_lemma : forall oracle s, WF s -> k_reg s = false -> lock s = false ->
+  exists r s', db_disconnect oracle s = (r, s') /\ r <> Blocked /\ WF s' /\ k_reg s' = false /\ p_has s' = false /\ lock s' = false /\
+    AccT false (p_id s') (next s') (closed s').
+Proof.
+  intros oracle s Hwf Hreg Hlock. unfold db_disconnect, bind. rewrite Hreg.
+  pose proof (pool_disconnect_spec oracle s Hwf Hreg) as H.
+  destruct (pool_disconnect oracle s) as [r s']. exists r, s'. split; [reflexivity|].
+  destruct r; try contradiction; destruct H as (Hwf' & _ & Hreg' & Hp & Hl); splits; auto; try discriminate; try congruence.
+  all: pose proof (w_acc _ (wf_w _ Hwf')) as Ha; rewrite Hp in Ha; exact Ha.
+Qed.
+
 (* C19: one session, any shape, any body, any fault sequence, started with the lock free *)
 Lemma released_lemma : forall oracle sh b s, WF s -> k_reg s = false -> lock s = false ->
   exists r s', run_session oracle sh b s = (r, s') /\ r <> Blocked /\
